@@ -525,6 +525,65 @@ def padding_invariance(ctx: Ctx, rule: str, sl, acc_value, label="MTSPEnv._step:
            construct=f"{label}:padding-leg")
 
 
+def ffsp_makespan(atom):
+    """max over machines of max over real jobs of (schedule[b, m, j] + job_duration[b, j, m]): two last-axis max reductions
+    (values), the dummy job column sliced off, both summands with coefficient +1, the durations transposed to (b, m, j)."""
+    n = nf.strip(atom)
+    while n.op == "meth" and n.args[1] in ("to", "float"):
+        n = nf.strip(n.args[0])
+    axes = []
+    for _ in range(2):
+        if n.op == "sub" and vg.is_const(n.args[1], 0):
+            m = nf.strip(n.args[0])
+        elif n.op == "attr" and n.args[1] == "values":
+            m = nf.strip(n.args[0])
+        elif (n.op == "meth" and n.args[1] == "amax") or nf._fn(n) == "torch.amax":
+            m = n
+        else:
+            return False, f"not the values of a max reduction: {vg.show(n, 3)}"
+        is_meth = m.op == "meth" and m.args[1] in ("max", "amax")
+        is_fn = nf._fn(m) in ("torch.max", "torch.amax")
+        if not (is_meth or is_fn):
+            return False, f"not a max reduction: {vg.show(m, 3)}"
+        ax = nf.axis_arg(m)
+        axes.append(ax.args[0] if isinstance(ax, vg.S) and ax.op == "const" else None)
+        n = nf.strip(m.args[0] if is_meth else m.args[1])
+    if axes[0] not in (-1, 1) or axes[1] not in (-1, 2):
+        return False, f"max reductions over axes {axes[::-1]}, expected the job axis (-1) of [B, machine, job] then the machine axis (-1) of [B, machine]"
+    real_jobs = False
+    if n.op == "sub" and isinstance(n.args[1], vg.S) and n.args[1].op == "tuple" and len(n.args[1].args) == 3:
+        last = n.args[1].args[2]
+        real_jobs = last.op == "slice" and vg.is_none(last.args[0]) and "num_job" in vg.selfattrs_of(last.args[1]) and nf.poly(last.args[1]) == nf.poly(vg.mk("selfattr", "num_job"))
+        full = all(x.op == "slice" and all(vg.is_none(y) for y in x.args) for x in n.args[1].args[:2])
+        real_jobs = real_jobs and full
+        n = n.args[0]
+    if not real_jobs:
+        return False, "the dummy job column is not sliced off ([:, :, :num_job]) before the max"
+    pv = nf.poly(n)
+    pos, neg = pv.side_atoms(True), pv.side_atoms(False)
+    if neg or len(pos) != 2 or any(c != 1 for c in pv.terms.values()):
+        return False, f"end time is not start + duration: {pv.show(3)}"
+    sched = [a for a in pos if vg.cells_of(a) >= {"schedule"} and "job_duration" not in vg.cells_of(a)]
+    dur = [a for a in pos if a not in sched]
+    if len(sched) != 1 or len(dur) != 1:
+        return False, f"end time is not schedule + job_duration: {pv.show(3)}"
+    d = nf.strip(dur[0])
+    transposed = False
+    if d.op == "meth" and d.args[1] == "permute":
+        dims = d.args[2:]
+        if len(dims) == 1 and dims[0].op == "tuple":
+            dims = dims[0].args
+        transposed = [x.args[0] if x.op == "const" else None for x in dims] == [0, 2, 1]
+    elif d.op == "meth" and d.args[1] in ("transpose", "swapaxes"):
+        transposed = sorted(x.args[0] % 3 if x.op == "const" and isinstance(x.args[0], int) else None for x in d.args[2:]) == [1, 2]
+    elif d.op == "attr" and d.args[1] == "mT":
+        transposed, d = True, vg.mk("meth", d.args[0], "mT")
+    base = nf.strip(d.args[0]) if transposed else d
+    if not (transposed and base.op == "cell0" and base.args[1] == "job_duration"):
+        return False, f"durations [B, job, machine] are not transposed to the schedule's [B, machine, job]: {vg.show(d, 3)}"
+    return True, "max_m max_{j < num_job} (schedule[b,m,j] + job_duration[b,j,m])"
+
+
 def incremental(ctx: Ctx):
     """C03.d: objectives accumulated by _step."""
     # ---- mTSP
@@ -641,10 +700,8 @@ def incremental(ctx: Ctx):
     for v in p_alts:
         pv = nf.poly(v)
         if len(pv.terms) == 1 and list(pv.terms.values())[0] == -1:
-            atom = pv.atoms()[0]
-            txt = vg.show(atom, 8)
-            if {"schedule", "job_duration"} <= vg.cells_of(atom) and "max" in txt:
-                ok, why = True, f"reward = -max(schedule + job_duration^T) over real jobs: {pv.show(2)}"
+            ok, why = ffsp_makespan(pv.atoms()[0])
+            why = f"reward = -{why}"
     ctx.ob("C03.d", "FFSPEnv._step:reward", ok, sl.where, why, construct="FFSPEnv._step:reward")
     # ---- FJSP finish_times written by _make_step = time + proc_time (cross-checked in C07.b)
     # ---- FJSP / JSSP step-wise reward: minus the increase of the makespan lower bound, so that the rewards of an episode sum to
